@@ -108,6 +108,11 @@ def make_response(req, spec):
         hdrs.append(('Sec-WebSocket-Accept', accept))
     for n, v in spec.get('extra', ()):
         hdrs.append((n, v))
+    # many small headers in front of / behind the deciding ones (still far below 16 KiB)
+    nfront = spec.get('many_front', 0)
+    hdrs = [('X-F%d' % j, str(j)) for j in range(nfront)] + hdrs + [('X-B%d' % j, str(j)) for j in range(spec.get('many_back', 0))]
+    for n, v in spec.get('extra_last', ()):
+        hdrs.append((n, v))
     order = spec.get('order')
     if order is not None:
         import random
